@@ -100,7 +100,7 @@ def run(ctx):
                                     "outcome": "design-level counterexample of the known finding (InvNoLoss)"})
     # 2. I->S: random CLI sessions judged by TLC
     sessions = run_sessions(ctx, "c40", n_max=ctx.q(24, 400), n_min=ctx.q(10, 60), ncmds=ctx.q(12, 20),
-                            budget_s=ctx.q(55, 560), par=ctx.q(8, 12), allow_forget=ctx.thorough)
+                            budget_s=ctx.q(55, 420), par=ctx.q(8, 12), allow_forget=ctx.thorough)
     trace = ctx.path("c40.ndjson")
     with open(trace, "w") as f:
         for s in sessions:
